@@ -16,8 +16,9 @@ Modes == {"workspace", "workspace_ppl", "workspace_lone", "single"}     \* works
 \* it are skipped, a quoted string field may contain a line break, later points are ignored
 \* text files: the WHOLE content becomes field `message` (several lines, surrounding blanks and a final line break included)
 \* text_bom / lp_bom: the file begins with the bytes EF BB BF; they are content like any other (part of `message`, of the first measurement name)
+\* lp_escaped_meas: the first point's measurement is spelled with escapes (\= \" \, and an escaped blank): the measurement is the NAME they spell
 \* lp_same_key: the first point has a tag and a field of the same name: both are part of the point, as for the library
-Inputs == {"none", "text", "text_multiline", "text_empty", "text_blank", "text_bom", "lineprotocol", "lp_comment_first", "lp_blank_first", "lp_newline_in_field", "lp_bom", "lp_same_key"}
+Inputs == {"none", "text", "text_multiline", "text_empty", "text_blank", "text_bom", "lineprotocol", "lp_comment_first", "lp_blank_first", "lp_newline_in_field", "lp_bom", "lp_same_key", "lp_escaped_meas"}
 Outputs == {"json", "lineprotocol"}
 \* crlfField: the script file has CR LF line ends, also inside a multi-line string literal whose value it stores: the script
 \* that runs is the file's bytes, nothing is normalised on the way
